@@ -177,7 +177,7 @@ theorem addRrset_items {track : Prop} {s0 : State} (owner : WName) (ty cls ttl :
     obtain ⟨_, hok⟩ := sp_addRr (track := track) (s0 := s0) (names := names) hint owner ty cls ttl rd hwf s
       ⟨loc, o, on0, hrec, hh⟩
     obtain ⟨p, hrec1⟩ := hok () s1 h1
-    obtain ⟨k, hit, hlen, hb, _⟩ := addRr_item hint owner ty cls ttl rd s s1 hrec.winv hwf hh h1
+    obtain ⟨k, hit, hlen, hb, _, _, _⟩ := addRr_item hint owner ty cls ttl rd s s1 hrec.winv hwf hh h1
     have e2 : Ext s1 s' := by
       have := frame_addRrset .mostRecentOwner owner ty cls ttl rds (n + 1) s1
       rw [h2] at this; exact this
@@ -232,7 +232,7 @@ theorem slay_addRrOp (sec : RrSection) (hint : Hint) (owner : WName) (ty cls ttl
   simp only at hfr1 c2 c3 c4 c5 c6 c7
   have w1 : WInv s1 := winv_ext hI.winv hfr1 c7 c3 c4 c5
   have hh1 : HintOK s1 hint owner := hintOK_ext hh hfr1 c3 c4 c5 c6
-  obtain ⟨k, hit, hlen, hb, _⟩ := addRr_item hint owner ty cls (ttlFrom ttl) rd s1 s2 w1 hwf hh1 h2
+  obtain ⟨k, hit, hlen, hb, _, _, _⟩ := addRr_item hint owner ty cls (ttlFrom ttl) rd s1 s2 w1 hwf hh1 h2
   have e2 : Ext s1 s2 := by
     have := frame_addRr hint owner ty cls (ttlFrom ttl) rd s1
     rw [h2] at this; exact this
@@ -299,7 +299,8 @@ theorem slay_addRrsetOp (sec : RrSection) (hint : Hint) (owner : WName) (ty cls 
 /-- the question, structurally: a name item at the old cursor, then four octets -/
 theorem addQuestionBody_item (qn : WName) (qt qc : Nat) (s s' : State) (hw : WInv s) (hwf : qn.WF)
     (h : addQuestionBody qn qt qc s = (.ok (), s')) :
-    ∃ k, Item s' s.cursor k ∧ s'.cursor = s.cursor + k + 4 := by
+    ∃ k, Item s' s.cursor k ∧ s'.cursor = s.cursor + k + 4 ∧ NameIs s' s.cursor s.mode qn ∧
+      BytesAt s'.octets (s.cursor + k) (u16be qt ++ u16be qc) := by
   unfold addQuestionBody at h
   obtain ⟨_, sA, hA, h⟩ := M.bind_ok_inv h
   obtain ⟨p, sB, hB, h⟩ := M.bind_ok_inv h
@@ -313,13 +314,14 @@ theorem addQuestionBody_item (qn : WName) (qt qc : Nat) (s s' : State) (hw : WIn
   have hs := writeUnhintedName_spec qn _ wA hwf
   have hf := frame_writeUnhintedName qn { s with gCtx := .qname }
   rw [hB] at hs hf
-  obtain ⟨_, _, _, _, _, ⟨ls, hrd, _⟩, hck⟩ := hs.ok p rfl
+  obtain ⟨_, _, _, _, _, ⟨ls, hrd, hmtB⟩, hck⟩ := hs.ok p rfl
   have hcurB : s.cursor ≤ sB.cursor := hf.cur
-  simp only at hck hrd hcurB
+  simp only at hck hrd hcurB hmtB
   have itB : Item sB s.cursor (sB.cursor - s.cursor) := item_of_reads hrd hck (by omega)
+  have nmB : NameIs sB s.cursor s.mode qn := nameIs_of_reads hrd hmtB
   unfold tryPushU16 at hE hF
-  obtain ⟨eE, _⟩ := tryPush_ok_inv hE
-  obtain ⟨eF, _⟩ := tryPush_ok_inv hF
+  obtain ⟨eE, zE⟩ := tryPush_ok_inv hE
+  obtain ⟨eF, zF⟩ := tryPush_ok_inv hF
   have hl2 : ∀ x, (u16be x).length = 2 := fun _ => rfl
   have cC : sC.cursor = sB.cursor := by rw [← hC]
   have oC : sC.octets = sB.octets := by rw [← hC]
@@ -329,20 +331,42 @@ theorem addQuestionBody_item (qn : WName) (qt qc : Nat) (s s' : State) (hw : WIn
   have gD : sD.gLabels = sB.gLabels := by rw [← hD]; split <;> exact gC
   have cE : sE.cursor = sB.cursor + 2 := by rw [eE]; simp [pushed, hl2, cD]
   have cF : s'.cursor = sB.cursor + 4 := by rw [eF]; simp [pushed, hl2, cE]
-  refine ⟨sB.cursor - s.cursor, ?_, by omega⟩
-  refine item_move (lo := 0) itB (fun _ _ => Nat.zero_le _) ?_ (by omega) ?_
-  · intro i _ hi
+  have preF : ∀ i, i < sB.cursor → s'.octets[i]? = sB.octets[i]? := by
+    intro i hi
     rw [eF, pushed_get_lt _ _ _ (by omega), eE, pushed_get_lt _ _ _ (by omega), oD]
-  · intro g hg _
+  have gF : ∀ g ∈ sB.gLabels, g ∈ s'.gLabels := by
+    intro g hg
     rw [eF, eE]
     show g ∈ sD.gLabels
     rw [gD]; exact hg
+  refine ⟨sB.cursor - s.cursor, ?_, by omega, ?_, ?_⟩
+  · exact item_move (lo := 0) itB (fun _ _ => Nat.zero_le _) (fun i _ hi => preF i (by omega)) (by omega)
+      (fun g hg _ => gF g hg)
+  · exact nameIs_frame (lo := 0) nmB (fun _ _ => Nat.zero_le _) (fun i _ hi => preF i hi) (by omega) gF
+  · rw [show s.cursor + (sB.cursor - s.cursor) = sB.cursor by omega]
+    have tqt : BytesAt s'.octets sB.cursor (u16be qt) := by
+      intro i hi
+      rw [hl2] at hi
+      rw [eF, pushed_get_lt _ _ _ (by omega), eE]
+      have := bytesAt_writeAt sD.octets sD.cursor (u16be qt) zE i (by rw [hl2]; exact hi)
+      show (writeAt sD.octets sD.cursor (u16be qt))[sB.cursor + i]? = _
+      rw [cD] at this ⊢
+      exact this
+    have tqc : BytesAt s'.octets (sB.cursor + 2) (u16be qc) := by
+      intro i hi
+      rw [hl2] at hi
+      rw [eF]
+      have := bytesAt_writeAt sE.octets sE.cursor (u16be qc) zF i (by rw [hl2]; exact hi)
+      show (writeAt sE.octets sE.cursor (u16be qc))[sB.cursor + 2 + i]? = _
+      rw [cE] at this ⊢
+      exact this
+    exact bytesAt_append_intro tqt (by rw [hl2]; exact tqc)
 
 /-- **`add_question` keeps the layout** -/
 theorem slay_addQuestion (qn : WName) (qt qc : Nat) (s s' : State) (hI : I s) (h : SLay s) (hwf : qn.WF)
     (hok : addQuestion qn qt qc s = (.ok (), s')) : SLay s' := by
   obtain ⟨s3, hsq, hb, hs'⟩ := addQuestion_ok_inv qn qt qc s s' hok
-  obtain ⟨k, hit, hcur⟩ := addQuestionBody_item qn qt qc s s3 hI.winv hwf hb
+  obtain ⟨k, hit, hcur, _, _⟩ := addQuestionBody_item qn qt qc s s3 hI.winv hwf hb
   have e : Ext s s3 := by
     have := frame_addQuestionBody qn qt qc s
     rw [hb] at this; exact this
